@@ -179,7 +179,8 @@ def run(ctx):
             other = next(strip(x) for x in (t0["cond"][2], t0["cond"][3]) if strip(x) != ld)
             tok = strip(ld[2][0])[1]
             is_cur = (t0["value"] is True) == (t0["cond"][1] == "Eq")
-            if not (other[0] == "field" and strip(other[1])[0] == "param" and strip(other[1])[1] == 1):
+            if not (other[0] == "field" and mentions(other, lambda t: t[0] == "param" and t[1] == 1) and
+                    not mentions(other, lambda t: t[0] in ("static", "call"))):
                 good = False          # the token compared with must be the one captured when the timer was started
             if is_cur and not sets:
                 good = False
@@ -211,9 +212,12 @@ def run(ctx):
         if not adv:
             okt, whyt = False, "cancel_timer does not advance `%s` on every path: a timer it failed to cancel would still stop a later query" % tok
         starters = {x.rsplit("::{closure", 1)[0] for x in cl}        # the functions that start a timer with such a thunk
-        if not set(tokens[tok]["rmw"]) <= starters | {CT.path}:
+        allowed = set(S.family(CT.path))
+        for st_ in starters:
+            allowed |= S.family(st_)
+        if not set(tokens[tok]["rmw"]) <= allowed:
             okt, whyt = False, "`%s` is also advanced by %s: a running query's timer could be disarmed" % (
-                tok, sorted(set(tokens[tok]["rmw"]) - starters - {CT.path}))
+                tok, sorted(set(tokens[tok]["rmw"]) - allowed))
     # thread_timer's cancel() can fail (NotWaiting when it loses a race with the timer thread) and cancel_timer cannot
     # tell: a timer whose cancellation failed fires later.  That is harmless only if its thunk is disarmed by then.
     unguarded = [c for c in cl if c not in [g[0] for g in guarded]]
